@@ -27,7 +27,10 @@ Record config := {
   cf_pkce_enforce : bool;
   cf_pkce_enforce_public : bool;
   cf_pkce_plain : bool;
-  cf_introspect_rt : bool      (* false = DisableRefreshTokenValidation *)
+  cf_introspect_rt : bool;     (* false = DisableRefreshTokenValidation *)
+  cf_life_dev : Z;             (* device and user code lifespan *)
+  cf_par_life : Z;             (* pushed authorization context lifespan *)
+  cf_par_enforced : bool
 }.
 
 Record client := {
@@ -45,7 +48,8 @@ Record sess := {
   s_subject : string;
   s_exp_code : option Z;
   s_exp_at : option Z;
-  s_exp_rt : option Z
+  s_exp_rt : option Z;
+  s_exp_dev : option Z         (* device code and user code (same instant) *)
 }.
 
 Record req := {
@@ -114,6 +118,13 @@ Definition create_refresh st k (r : req) :=
   set_rt_idx (set_refresh st (upd (refresh st) k (Some (true, r)))) (upd (rt_idx st) (r_id r) (Some k)).
 Definition delete_refresh st k := set_refresh st (upd (refresh st) k None).
 
+(* device authorizations (under the device-code signature; the user-code entry points to the same request) *)
+Definition put_device st k (v : nat * req) := set_device st (upd (device st) k (Some v)).
+Definition delete_device st k := set_device st (upd (device st) k None).
+(* pushed authorization requests *)
+Definition create_par st k (r : req) := set_par st (upd (par st) k (Some r)).
+Definition delete_par st k := set_par st (upd (par st) k None).
+
 (* RevokeRefreshToken(requestID): marks the record the index points to inactive;
    ErrNotFound when the index points to a deleted record; nothing when there is no index entry *)
 Definition revoke_refresh st rid : store * option serr :=
@@ -139,8 +150,12 @@ Definition rotate_refresh st rid : store * option serr :=
   end.
 
 (* ------------------------------------------------------------------ credentials handed out *)
-Inductive ckind := KCode | KAccess | KRefresh.
-Definition ckind_eqb a b := match a, b with KCode, KCode | KAccess, KAccess | KRefresh, KRefresh => true | _, _ => false end.
+Inductive ckind := KCode | KAccess | KRefresh | KDevice | KUser | KPar.
+Definition ckind_eqb a b :=
+  match a, b with
+  | KCode, KCode | KAccess, KAccess | KRefresh, KRefresh | KDevice, KDevice | KUser, KUser | KPar, KPar => true
+  | _, _ => false
+  end.
 
 Record issued := { i_kind : ckind; i_key : nat; i_rid : nat; i_endpoint_token : bool (* minted by the token endpoint *) }.
 
